@@ -327,15 +327,6 @@ Lemma byte_path_not_vec k e :
   match k with KLinkedList | KHashSet | KBTreeSet => True | _ => False end -> byte_path k e = false.
 Proof. unfold byte_path. destruct k; intros []; apply andb_false_r. Qed.
 
-Fixpoint enc_items_flagged (fuel : nat) (e : encoder) (vs : list val) (st : strtab) : enc_result :=
-  match vs with
-  | [] => Ok ([0], st)
-  | v :: r => match fuel with O => Fuel | S fl =>
-      '(b1, st) <- e v st ;; '(b2, st) <- enc_items_flagged fl e r st ;; Ok (1 :: b1 ++ b2, st) end
-  end.
-Definition enc_seq_unknown (fuel : nat) (e : encoder) (vs : list val) (st : strtab) : enc_result :=
-  '(b, st) <- enc_items_flagged fuel e vs st ;; Ok (write_var_i32 (-1) ++ b, st).
-
 Lemma dec_unknown_S {S Rg} (D : dops S Rg) fuel d s :
   dec_unknown D (Datatypes.S fuel) d s =
     ('(tag, s) <- r_u8 (d_rd D) s ;;
